@@ -448,21 +448,20 @@ func init() {
 		return strConst("<formatted>")
 	}
 	intrinsics["fmt.Sprintf"] = func(ex *Exec, st *State, fr *Frame, c *ssa.Call, a []Value) Value {
-		// formatting is not the subject, except for the one form whose result is data: a format string
-		// without arguments is returned unchanged unless it contains a '%' (then the result is opaque)
-		f := a[0].(*StrVal)
-		if va, ok := a[1].(*SliceVal); ok {
-			if n, okn := concreteInt(va.len); okn && n == 0 {
-				var pct []*Term
-				for _, ch := range f.cells {
-					pct = append(pct, mkEq(ch, mkBV(8, '%')))
-				}
-				if !ex.branch(st, mkOr(pct...)) {
-					return f
-				}
-			}
+		if cells, ok := ex.formatCells(st, a[0].(*StrVal), a[1]); ok {
+			return &StrVal{cells: cells}
 		}
 		return strConst("<formatted>")
+	}
+	intrinsics["fmt.Appendf"] = func(ex *Exec, st *State, fr *Frame, c *ssa.Call, a []Value) Value {
+		cells, ok := ex.formatCells(st, a[1].(*StrVal), a[2])
+		if !ok {
+			cells = strConst("<formatted>").cells
+		}
+		if len(cells) == 0 {
+			return a[0]
+		}
+		return ex.appendBytes(st, a[0].(*SliceVal), ex.newBytes(st, cells))
 	}
 	intrinsics["fmt.Sprint"] = opaqueStr
 	intrinsics["fmt.Sprintln"] = opaqueStr
@@ -1248,6 +1247,98 @@ func (ex *Exec) boolSlice(st *State, v Value) []*Term {
 
 // randRead models one Read call on crypto/rand.Reader used directly as an io.Reader: besides filling the
 // buffer it may deliver fewer octets (at least one) without an error, which is all io.Reader promises.
+// formatCells models the part of fmt's formatting whose result is data in this code base: the octets of the
+// format string are copied, with the verbs %c (one octet below 0x80), %d (concrete), %s (string) and %%
+// expanded, provided no '%' hides in symbolic octets of the format (the executor forks on that: with
+// one, the result is opaque - and differs from whatever the caller meant to build).  ok = false: opaque.
+func (ex *Exec) formatCells(st *State, f *StrVal, vargs Value) ([]*Term, bool) {
+	var args []Value
+	if va, ok := vargs.(*SliceVal); ok && va.obj != 0 {
+		n, okn := concreteInt(va.len)
+		off, oko := concreteInt(va.off)
+		o := st.obj(va.obj)
+		if !okn || !oko || o.kind != objArr {
+			return nil, false
+		}
+		for i := 0; i < n; i++ {
+			args = append(args, o.elems[off+i])
+		}
+	}
+	var pct []*Term
+	for _, ch := range f.cells {
+		if !ch.IsConst() {
+			pct = append(pct, mkEq(ch, mkBV(8, '%')))
+		}
+	}
+	if len(pct) > 0 && ex.branch(st, mkOr(pct...)) {
+		return nil, false
+	}
+	var out []*Term
+	next := 0
+	for i := 0; i < len(f.cells); i++ {
+		ch := f.cells[i]
+		v, isC := ch.ConstU()
+		if !isC || v != '%' {
+			out = append(out, ch)
+			continue
+		}
+		if i+1 >= len(f.cells) {
+			return nil, false
+		}
+		verb, okv := f.cells[i+1].ConstU()
+		if !okv {
+			return nil, false
+		}
+		i++
+		if verb == '%' {
+			out = append(out, mkBV(8, '%'))
+			continue
+		}
+		if next >= len(args) {
+			return nil, false
+		}
+		arg := args[next]
+		next++
+		if iv, ok := arg.(*IfaceVal); ok {
+			arg = iv.val
+		}
+		switch verb {
+		case 'c':
+			t, ok := arg.(*Term)
+			if !ok {
+				return nil, false
+			}
+			n, okc := t.ConstU()
+			if !okc || n >= 0x80 {
+				return nil, false
+			}
+			out = append(out, mkBV(8, n))
+		case 'd':
+			t, ok := arg.(*Term)
+			if !ok {
+				return nil, false
+			}
+			n, okc := t.ConstU()
+			if !okc || t.sort.W > 64 || int64(n) < 0 {
+				return nil, false
+			}
+			out = append(out, strConst(fmt.Sprintf("%d", n)).cells...)
+		case 's':
+			sv, ok := arg.(*StrVal)
+			if !ok {
+				return nil, false
+			}
+			out = append(out, sv.cells...)
+		default:
+			return nil, false
+		}
+	}
+	if next != len(args) {
+		return nil, false
+	}
+	return out, true
+}
+
 func (ex *Exec) randRead(st *State, buf *SliceVal) Value {
 	n := ex.concretize(st, buf.len, "random read length", 4096)
 	short := 0
